@@ -78,6 +78,14 @@ func (u *Unit) Discharge(ctx context.Context, ro RunOpts, stats map[string]*Solv
 		el      time.Duration
 	}
 	fast := Solvers(fastMs, ro.Seed)
+	if ro.Tier == "thorough" && fastMs > 5000 {
+		// the secondary solvers get a shorter budget in the whole-script pass: what they cannot do quickly
+		// is raced standalone below anyway, and their long timeouts dominated the thorough tier
+		sec := Solvers(5000, ro.Seed)
+		for i := 1; i < len(fast) && i < len(sec); i++ {
+			fast[i] = sec[i]
+		}
+	}
 	if ro.Tier != "thorough" {
 		// quick tier: the primary solver alone; whatever it leaves open is raced on all solvers below
 		fast = fast[:1]
